@@ -4,6 +4,7 @@ from collections import Counter
 from sa.sym import Engine, show, show_cond, subterms, C, is_const
 from sa.facts import field_writes
 from .common import *
+from .tables import pin
 
 EXPLANATION = (
     "Static clauses of 'the key is the XOR of one constant per (piece,colour,square), per rights set and per ep square': "
@@ -107,7 +108,7 @@ def r1_placement(ctx):
                 for s in subterms(e[1]):
                     if s[0] == 'fld' and s[2] in ('white', 'black'):
                         side = s[2]
-            cd = dict(o.conds).get(('discr', ('p', 4)))
+            cd = pin(dict(o.conds).get(('discr', ('p', 4))))
             col_ok = (side == 'white' and cd == facts.variant_discr('chess::board::color::Color', 'White')) or \
                      (side == 'black' and cd == facts.variant_discr('chess::board::color::Color', 'Black'))
             ctx.ob(rule, name, 'Ok path (%s): toggles exactly key(piece, square, colour) of the piece placed' % side, ok and col_ok,
